@@ -8,16 +8,16 @@ from ._base import *  # noqa
 from ._base import exn_code, COMMON_TB
 
 CASES_PER_FILE = 200
-SERVES = ["C01", "C02"]
-COQ_TARGETS = ["theories/Corr/ForestCorr.vo"]
+SERVES = ["C01", "C02", "C03", "C20"]
+COQ_TARGETS = ["theories/Corr/ForestCorr.vo", "theories/Corr/ForestPathCorr.vo"]
 
 
 def coq_header(prop):
-    return "From BT Require Import Base.Prelude Heap.Forest Corr.ForestCorr."
+    return "From BT Require Import Base.Prelude Heap.Forest Corr.ForestCorr Corr.ForestPathCorr."
 
 
 def coq_case_type(prop):
-    return "fcase"
+    return {"C03": "c3case", "C20": "c20case"}.get(prop, "fcase")
 
 
 def coq_check(prop):
@@ -161,7 +161,8 @@ def apply_op(cl, nodes, op):
         raise ValueError(k)
 
 
-def run_impl(prop, case):
+def run_history(case, with_final=True):
+    """Run the history on fresh FNode/FBase objects; used in-process and in the no-assertion child."""
     cl = _classes()
     cl["Faults"].queue = []
     cl["Faults"].pending = False
@@ -182,19 +183,88 @@ def run_impl(prop, case):
         cl["Faults"].pending = False
         trace.append([_links(nodes), code])
     final = []
-    if case["cls"] == "Node":
+    if case["cls"] == "Node" and with_final:
         for n in nodes:
             final.append([n.sep, n.path_name, n.depth])
     obs = {"trace": trace, "final": final}
-    if prop == "C03":
+    if "lookups" in case:
         from bigtree.tree.search import find_full_path
         idx = {id(n): i for i, n in enumerate(nodes)}
         look = []
-        for (start, target) in case.get("lookups", []):
-            r = find_full_path(nodes[start], nodes[target].path_name)
-            look.append(None if r is None else idx[id(r)])
+        for (start, target) in case["lookups"]:
+            try:
+                r = find_full_path(nodes[start], nodes[target].path_name)
+                look.append(["ret", None if r is None else idx[id(r)]])
+            except Exception:
+                look.append(["raise"])
         obs["lookups"] = look
+    if case.get("battery"):
+        obs["battery"] = _battery(case, nodes)
     return obs
+
+
+def _battery(case, nodes):
+    """results of a set of library functions on every tree of the final forest (C20: must not
+    depend on the assertion switch)"""
+    import io
+    import contextlib
+    out = []
+    if case["cls"] != "Node":
+        for n in nodes:
+            if n.parent is None:
+                out.append([len(list(n.descendants)), n.max_depth, n.diameter, [len(list(x.children)) for x in [n] + list(n.descendants)]])
+        return out
+    from bigtree.tree import export, search, helper
+    from bigtree.utils import iterators
+    for n in nodes:
+        if n.parent is not None:
+            continue
+        item = {}
+        try:
+            item["dict"] = sorted(export.tree_to_dict(n).keys())
+            item["nested"] = export.tree_to_nested_dict(n)
+            buf = io.StringIO()
+            with contextlib.redirect_stdout(buf):
+                export.print_tree(n)
+            item["print"] = buf.getvalue()
+            item["pre"] = [x.path_name for x in iterators.preorder_iter(n)]
+            item["post"] = [x.path_name for x in iterators.postorder_iter(n)]
+            item["level"] = [[x.path_name for x in g] for g in iterators.levelordergroup_iter(n)]
+            item["zigzag"] = [x.path_name for x in iterators.zigzag_iter(n)]
+            item["names"] = [x.path_name for x in search.findall(n, lambda z: len(z.node_name) == 1)]
+            item["newick"] = export.tree_to_newick(n)
+            item["clone"] = [x.path_name for x in iterators.preorder_iter(helper.clone_tree(n, type(n)))]
+            item["copy"] = [x.path_name for x in iterators.preorder_iter(n.copy())]
+            item["depth"] = [n.max_depth, n.diameter]
+        except Exception as e:
+            item["error"] = type(e).__name__
+        out.append(item)
+    return out
+
+
+def run_impl(prop, case):
+    if prop != "C20":
+        return run_history(case)
+    # C20: checks on (in-process), then off (child interpreter started with BIGTREE_CONF_ASSERTIONS="")
+    from bigtree import globals as bt_globals
+    assert bt_globals.ASSERTIONS, "the in-process interpreter must run with the checks enabled"
+    on = run_history(case, with_final=False)
+    # keep only the prefix that is accepted by the type/loop checks (the property speaks about
+    # sequences that are valid with the checks enabled)
+    k = len(case["ops"])
+    for i, (_, code) in enumerate(on["trace"]):
+        if code in (1, 6):
+            k = i
+            break
+    eff = dict(case)
+    eff["ops"] = case["ops"][:k]
+    eff["battery"] = True
+    from .. import noassert
+    assert noassert.call("harness.engines.forest", "__assertions__") is False
+    on = run_history(eff, with_final=False)
+    off = noassert.call("harness.engines.forest", "run_history", eff, False)
+    return {"ops": eff["ops"], "trace": on["trace"], "final": [], "off": off["trace"],
+            "lib_equal": on["battery"] == off["battery"], "battery_items": len(on["battery"])}
 
 
 # ---------------------------------------------------------------------------------------------
@@ -241,14 +311,20 @@ def emit(prop, case, obs):
     parts = [
         cbool(case["cls"] == "Node"), cbool(case["assert"]), str(n),
         clist(cstr(s) for s in case["names"]), clist(cstr(s) for s in case["seps"]),
-        clist(_cop(o) for o in case["ops"]),
+        clist(_cop(o) for o in obs.get("ops", case["ops"])),
         clist(cpair(_clinks(l), str(code)) for l, code in obs["trace"]),
         clist(f"({cstr(a)}, {cstr(b)}, {int(d)})" for a, b, d in obs["final"]),
     ]
+    fc = "FC " + " ".join(f"({p})" for p in parts)
     if prop == "C03":
-        parts.append(clist(f"({s}, {t}, {copt(r, str)})" for (s, t), r in zip(case.get("lookups", []), obs["lookups"])))
-        return "C3 (FC " + " ".join(f"({p})" for p in parts[:8]) + f") ({parts[8]})"
-    return "FC " + " ".join(f"({p})" for p in parts)
+        def lk(r):
+            return "None" if r[0] == "raise" else f"(Some {copt(r[1], str)})"
+        looks = clist(f"({s}, {t}, {lk(r)})" for (s, t), r in zip(case.get("lookups", []), obs["lookups"]))
+        return f"C3 ({fc}) ({looks})"
+    if prop == "C20":
+        off = clist(cpair(_clinks(l), str(code)) for l, code in obs["off"])
+        return f"C20 ({fc}) ({off}) {cbool(obs['lib_equal'])}"
+    return fc
 
 
 # ---------------------------------------------------------------------------------------------
@@ -317,7 +393,10 @@ def gen_case(rng, prop, cls=None, fault_rate=0.1, invalid_rate=0.15, nmax=8, max
     pool = NAME_POOLS[pool_name]
     off = rng.randrange(len(pool))
     names = [pool[(off + i) % len(pool)] for i in range(n)]
-    seps = [rng.choice(SEPS)] * n if rng.random() < 0.7 else [rng.choice(SEPS) for _ in range(n)]
+    sep_pool = SEPS
+    if prop == "C03":   # the property quantifies over separators that do not occur inside a name
+        sep_pool = [c for c in SEPS if not any(c in nm for nm in names)]
+    seps = [rng.choice(sep_pool)] * n if rng.random() < 0.7 else [rng.choice(sep_pool) for _ in range(n)]
     sh = Shadow(n)
     ops = []
 
@@ -440,7 +519,7 @@ def gen_case(rng, prop, cls=None, fault_rate=0.1, invalid_rate=0.15, nmax=8, max
             ops.append(["Sort", p, keys, rng.random() < 0.4])
             # shadow order is only used for bias; keep as is
         elif cls == "Node":
-            ops.append(["SetSep", rng.randrange(n), rng.choice(SEPS)])
+            ops.append(["SetSep", rng.randrange(n), rng.choice(sep_pool)])
     case = {"cls": cls, "assert": assertions, "n": n, "names": names, "seps": seps, "ops": ops,
             "stratum": pool_name}
     if prop == "C03":
@@ -448,8 +527,30 @@ def gen_case(rng, prop, cls=None, fault_rate=0.1, invalid_rate=0.15, nmax=8, max
     return case
 
 
+def corpus(prop):
+    out = []
+    if prop == "C03":
+        # known finding K3: multi-character separator, name ending in one of its characters
+        out.append(("K3-witness", {"cls": "Node", "assert": True, "n": 2, "names": ["r", "a-"], "seps": ["->", "->"],
+                                   "ops": [["Append", 0, 1, "none"]], "stratum": "k3", "lookups": [[0, 1], [1, 1]]}))
+    if prop == "C02":
+        # witness of the repaired defect F1 (stolen children restored in argument order)
+        out.append(("F1-witness", {"cls": "BaseNode", "assert": True, "n": 5, "names": ["a"] * 5, "seps": ["/"] * 5,
+                                   "ops": [["SetChildren", 0, "list", [["N", 1], ["N", 2], ["N", 3]], "none"],
+                                           ["SetChildren", 4, "list", [["N", 2], ["N", 1]], "post"]], "stratum": "f1"}))
+    return out
+
+
+def matches_finding(prop, entry, case, obs, flags):
+    if prop == "C03" and entry.get("id") == "K3-C03":
+        return flags == 2 and any(len(sp) >= 2 for sp in case["seps"])
+    return False
+
+
 def generate(prop, rng, tier):
     count = {"quick": 1400, "thorough": 12000, "search": 4000}[tier]
+    if prop == "C20":
+        count = {"quick": 700, "thorough": 6000, "search": 2000}[tier]
     fr = {"C01": 0.08, "C02": 0.4, "C03": 0.1, "C20": 0.0}[prop]
     ir = {"C01": 0.2, "C02": 0.25, "C03": 0.1, "C20": 0.0}[prop]
     for i in range(count):
